@@ -57,7 +57,7 @@ ASSUMPTIONS = [
     "timing behaviour of the check is out of scope",
 ]
 NONTRIVIAL = ["fcell", "rcell"]
-DEADLINE = {"quick": 300, "thorough": 1500}
+DEADLINE = {"quick": 450, "thorough": 1500}
 
 MACS = {"md5": hashlib.md5, "sha1": hashlib.sha1, "sha256": hashlib.sha256,
         "sha384": hashlib.sha384}
